@@ -35,9 +35,9 @@ Record cop := mkOp {
 #[global] Instance eta_cop : Settable _ :=
   settable! mkOp <o_mid; o_kind; o_deadline; o_status; o_reply; o_items; o_taken; o_chan; o_rx; o_got; o_res; o_tmo; o_call>.
 
-Record fixes := mkFx { fix5 : bool; fix7 : bool; fix8 : bool; fix9 : bool; fix15 : bool; fix16 : bool; fix20 : bool; fix25 : bool; fix29 : bool }.
-Definition as_is := mkFx false false false false false false false false false.
-Definition repaired := mkFx true true true true true true true true true.
+Record fixes := mkFx { fix5 : bool; fix7 : bool; fix8 : bool; fix9 : bool; fix15 : bool; fix16 : bool; fix20 : bool; fix25 : bool; fix29 : bool; fix31 : bool }.
+Definition as_is := mkFx false false false false false false false false false false.
+Definition repaired := mkFx true true true true true true true true true true.
 
 Inductive dstatus := Running | EndedOk | EndedErr | EndedPanic.
 Record st := mkSt {
@@ -74,7 +74,8 @@ Definition end_driver (how : dstatus) (s : st) : st :=
   let s1 := fold_left (fun s p => updop (snd p) drop_reply s) (rmap s) s in
   let s2 := fold_left (fun s p => updop (snd p) close_chan s) (smap s1) s1 in
   let s3 := fold_left (fun s o => updop o (fun c => close_chan (drop_reply c)) s) (opq s2) s2 in
-  s3 <| rmap := [] |> <| smap := [] |> <| opq := [] |> <| scrubq := [] |> <| drv := how |>.
+  (* repair F31: when the driver ends nothing is routed any more - the id table is cleared (as found, every id stayed reserved for good) *)
+  s3 <| rmap := [] |> <| smap := [] |> <| opq := [] |> <| scrubq := [] |> <| drv := how |> <| inuse ::= fun l => if fix31 (fx s) then [] else l |>.
 
 Definition abandon_hit (s0 : st) (t : Z) : bool :=
   match alookup t (rmap s0), alookup t (smap s0) with None, None => false | _, _ => true end.
@@ -117,6 +118,7 @@ Definition enqueue (o : nat) (s : st) : st :=
         then updop o (fun c => c <| o_status := CWait |> <| o_deadline := option_map (Z.add (now s)) (o_tmo c) |> <| o_reply := OsEmpty |>
                                  <| o_chan := is_search_kind (o_kind c) |> <| o_rx := is_search_kind (o_kind c) |>) s <| opq ::= fun q => q ++ [o] |>
         else updop o (fun c => c <| o_status := start_err (o_kind c) EOpSend |> <| o_deadline := option_map (Z.add (now s)) (o_tmo c) |>) s
+               <| inuse ::= fun l => if fix31 (fx s) then rem (o_mid c) l else l |>
     | _ => s end end.
 
 (* the id a stream names when it asks the driver to scrub: its own (repair F25: it remembers it), or whatever its handle says *)
@@ -136,7 +138,9 @@ Definition step (s : st) (e : ev) : st :=
                     (match k with KSearch _ => true | _ => false end) (match k with KSearch _ => true | _ => false end) [] None tmo None in
       let s1 := s <| last := mid |> <| inuse ::= cons mid |> in
       if is_running s then s1 <| ops ::= fun l => l ++ [o] |> <| opq ::= fun q => q ++ [length (ops s)] |>
-      else s1 <| ops ::= fun l => l ++ [o <| o_status := match k with KSearch _ => SStartErr EOpSend | _ => CErr EOpSend end |> <| o_reply := OsClosed |> <| o_rx := false |> <| o_chan := false |>] |>
+      else (* the send to the driver fails: repair F31 gives the id just taken back *)
+           s1 <| ops ::= fun l => l ++ [o <| o_status := match k with KSearch _ => SStartErr EOpSend | _ => CErr EOpSend end |> <| o_reply := OsClosed |> <| o_rx := false |> <| o_chan := false |>] |>
+              <| inuse ::= fun l => if fix31 (fx s) then rem mid l else l |>
     | _ => s end
   | DrvOp =>
     if negb (is_running s) then s else
@@ -146,12 +150,12 @@ Definition step (s : st) (e : ev) : st :=
       let s0 := s <| opq := q |> <| wout ::= fun w => w ++ [(mid, o_kind c)] |> in
       match o_kind c with
       | KSingle =>
-          if fix16 (fx s) && negb (waiting c) then updop o drop_reply s0
+          if fix16 (fx s) && negb (waiting c) then updop o drop_reply s0 <| inuse ::= fun l => if fix31 (fx s) then rem mid l else l |>
           else drop_entry (rmap s0) mid drop_reply s0 <| rmap ::= ainsert mid o |>
       | KSearch _ =>
           let s1 := drop_entry (smap s0) mid close_chan s0 <| smap ::= ainsert mid o |> in
           let s2 := updop o (fill_reply None) s1 in
-          if fix16 (fx s) && negb (waiting c) then updop o close_chan s2 <| smap ::= aremove mid |> else s2
+          if fix16 (fx s) && negb (waiting c) then updop o close_chan s2 <| smap ::= aremove mid |> <| inuse ::= fun l => if fix31 (fx s) then rem mid l else l |> else s2
       | KAbandon t =>
           let s1 := drop_entry (rmap s0) t drop_reply s0 <| rmap ::= aremove t |> in
           let s2 := drop_entry (smap s1) t close_chan s1 <| smap ::= aremove t |> in
@@ -316,7 +320,7 @@ Proof. vm_compute. repeat split. Qed.
    has come round: modelled by stepping [last] back - the stale scrub takes the reply sender of the operation that owns the id now *)
 (* F25: an operation issued through a stream's own handle; the stream, finished early, then has the driver scrub that operation's id and
    keeps its own - with every other repair in *)
-Definition all_but_25 := mkFx true true true true true true true false true.
+Definition all_but_25 := mkFx true true true true true true true false true true.
 Definition h25 := [Start (KSearch false) None; DrvOp; CliPoll 0; Start KSingle None; ViaHandle 0; DrvOp; ServerSend (mkResp 2 ROther 5); DrvResp; CliPoll 1; StreamFinish 0; DrvScrub].
 Lemma c13_refuted_F25 : c13 (run all_but_25 h25) = false /\ inuse (run all_but_25 h25) = [1] /\ map fst (smap (run all_but_25 h25)) = [1].
 Proof. vm_compute. repeat split. Qed.
@@ -324,7 +328,7 @@ Lemma c13_repaired_F25 : c13 (run repaired h25) = true /\ inuse (run repaired h2
 Proof. vm_compute. repeat split. Qed.
 
 (* F29: an intermediate response, then the real result, for a single-result operation *)
-Definition all_but_29 := mkFx true true true true true true true true false.
+Definition all_but_29 := mkFx true true true true true true true true false true.
 Definition h29 := [Start KSingle None; DrvOp; ServerSend (mkResp 1 RInter 4); ServerSend (mkResp 1 ROther 5); DrvResp; DrvResp; CliPoll 0].
 Lemma c01_refuted_F29 : option_map o_status (getop (run all_but_29 h29) 0%nat) = Some (COk (Some (mkResp 1 RInter 4))) /\ map snd (processed (run all_but_29 h29)) = [Some 0%nat; None].
 Proof. vm_compute. split; reflexivity. Qed.
